@@ -1330,7 +1330,15 @@ fn exec_tx(t: &[&str]) -> Option<String> {
             let fl: Vec<bool> = t.get(3)?.chars().map(|c| c == 'o').collect();
             let sh: Shared = Arc::new(Mutex::new(ByteScript { io_resp: parse_io_resps(resp)?.into_iter().collect(), flush_answers: fl.into_iter().collect(), ..Default::default() }));
             let mut s = Serial::new(Box::new(SerialDev(sh.clone())));
-            let rs: Vec<&str> = ps.iter().map(|p| send_res(guard(|| s.try_send_packet(p)))).collect();
+            // per send: result and the length of the device log when the send returned (so that the piece each send put
+            // on the device is known)
+            let rs: Vec<String> = ps
+                .iter()
+                .map(|p| {
+                    let r = send_res(guard(|| s.try_send_packet(p)));
+                    format!("{}@{}", r, sh.lock().unwrap_or_else(|e| e.into_inner()).tx.len())
+                })
+                .collect();
             let g = sh.lock().unwrap_or_else(|e| e.into_inner());
             Some(format!("{}/f{} {}", serial_log(&g.tx), g.flushes, rs.join(",")))
         }
